@@ -295,7 +295,9 @@ int hx_mutate_main(int argc, char **argv) {
         if (hx_edge_new != edges_before && nm > 0 && !unguided) {
             size_t bytes = 0;
             for (uint32_t q = 0; q < c.nops; q++) bytes += c.ops[q].len;
-            if (bytes <= (1u << 16) && c.nops <= 512) {
+            /* (cases that make the parser deliver megabytes - decompression bombs - are run but not bred from: a pool that
+             * drifts towards them makes a shard arbitrarily slow without reaching anything new) */
+            if (bytes <= (1u << 16) && c.nops <= 512 && r.st.body_bytes_req + r.st.body_bytes_res <= (4u << 20)) {
                 uint32_t slot = npool < POOLMAX ? npool++ : rn(POOLMAX);
                 if (pool[slot].ops) hx_case_free_ops(&pool[slot]);
                 hx_case_copy(&pool[slot], &c);
